@@ -85,3 +85,19 @@ Theorem C05_atom_order : forall rs rs', Forall2 same_res rs rs' ->
     (forall order, find_pairs rs' order = find_pairs rs order) /\ (forall order, find_stackings rs' order = find_stackings rs order).
 Proof. intros rs rs' H. split; [exact (find_pairs_same rs rs' H)|exact (find_stackings_same rs rs' H)]. Qed.
 Print Assumptions C05_atom_order.
+
+(* relabelling: the model reads chain / number / insertion code only through the residue order, so any relabelling that
+   keeps the order of the residues (and their model number, letters and atoms) gives the same interaction lists *)
+From RV Require Import Proofs.C05Relabel.
+Theorem C05_relabelling : forall rs rs', Forall2 sim_res rs rs' ->
+    (forall i j a b a' b', nth_error rs i = Some a -> nth_error rs j = Some b -> nth_error rs' i = Some a' -> nth_error rs' j = Some b' ->
+                           res_ltb a' b' = res_ltb a b) ->
+    (forall order, find_pairs rs' order = find_pairs rs order) /\ (forall order, find_stackings rs' order = find_stackings rs order).
+Proof. intros rs rs' H O. split; [exact (find_pairs_sim rs rs' H O)|exact (find_stackings_sim rs rs' H O)]. Qed.
+Print Assumptions C05_relabelling.
+
+Theorem C05_renumbering : forall d rs,
+    (forall order, find_pairs (map (shift d) rs) order = find_pairs rs order) /\
+    (forall order, find_stackings (map (shift d) rs) order = find_stackings rs order).
+Proof. exact renumbered_same. Qed.
+Print Assumptions C05_renumbering.
